@@ -272,4 +272,16 @@ PROPS = {
         "assumptions": ["the LALRPOP-generated parser tables and logos-generated automata are exercised, not modelled"],
         "partial": ["totality of the grammar actions and of check_prog is established by correspondence only; theorems: totality of the string sub-lexer model, range of positional numbering, digit sets of normalised number tokens"],
     },
+    "C20": {
+        "profiles": ["debug"],
+        "rule": "environments of 0..4 generated definitions (recursive, possibly uninhabited, with empty / reserved / function / service types), 0..3 requested types, seeds of 0..4096 bytes (all zero, all 0xff, random), configurations drawn from depth in {-1..30}, size in {-1..1000}, width in {0..40}, ranges incl. empty and out-of-type ones, every text kind and an unknown one, values supplied by configuration (well and ill typed, unparsable); "
+                "each call goes through random::any under catch_unwind; a returned value must annotate unchanged at the requested types, encode at them, and nest no deeper than the configured depth plus one pass through the type structure; returned values are re-checked against the model's typing relation; "
+                "the size estimate of every requested type and every definition is compared with the model through a cfg(candid_verif) hook; every number type with ranges around all type bounds (error exactly when the clamped range is empty; returned numbers within the clamped range); every request is non-trivial; distinct = distinct request lines",
+        "trusted": [
+            "the entropy source (arbitrary::Unstructured), fake text generation and the configuration tree are exercised, not modelled: the model covers the size estimate, the weights, the selection from weights, number bounds and the typing relation",
+            "hook random::verif_size (cfg candid_verif) returns size() unchanged",
+        ],
+        "assumptions": ["an error is an admissible answer (the property allows it); which inhabited types get an error (e.g. recursion limit on variants whose every alternative is recursive) is counted in the evidence, not judged"],
+        "partial": ["that returned values inhabit the requested types is established on the generated calls (implementation oracle + model typing relation); theorems: selection never returns a zero-weight alternative and succeeds when a weight is positive, inhabited alternatives keep weight, spent budget keeps only the smallest inhabited alternatives and makes opt null, number bounds, size 0 only for empty, selected alternative is typed"],
+    },
 }
